@@ -3,7 +3,13 @@ use super::StorageSlice;
 use super::write_ahead_log::WriteAheadLog;
 use super::write_ahead_log::WriteAheadLogRecord;
 use crate::DbError;
+#[cfg(all(agdb_verif, kani))]
+use crate::verif_fs::File;
+#[cfg(all(agdb_verif, kani))]
+use crate::verif_fs::OpenOptions;
+#[cfg(not(all(agdb_verif, kani)))]
 use std::fs::File;
+#[cfg(not(all(agdb_verif, kani)))]
 use std::fs::OpenOptions;
 use std::io::Read;
 use std::io::Seek;
@@ -1906,4 +1912,11 @@ mod tests {
         assert_eq!(storage.value::<i64>(index2), Ok(999_i64));
         assert_eq!(storage.value_size(index1).unwrap(), 4);
     }
+}
+
+// Verification hook (inactive unless built with `--cfg agdb_verif` under Kani).
+#[cfg(all(agdb_verif, kani))]
+#[allow(unused, dead_code, clippy::all)]
+pub(crate) mod verif_h {
+    include!(concat!(env!("AGDB_VERIF_HARNESS"), "/file_storage_h.rs"));
 }
